@@ -167,8 +167,8 @@ func skolemSums(t *Term, sk []*Term) []*Term {
 		if isSk[t.id] {
 			return true, true
 		}
-		if t.kind == 'a' && t.op == "ite" {
-			return false, false
+		if t.kind == 'a' && t.op == "ite" && t.n > 40 {
+			return false, false // a large conditional: not an index expression worth instantiating at
 		}
 		any, pure := false, true
 		for _, a := range t.args {
@@ -201,8 +201,78 @@ func skolemSums(t *Term, sk []*Term) []*Term {
 			}
 		}
 	}
-	if len(out) > 4 {
-		out = out[:4]
+	if len(out) > 10 {
+		out = out[:10]
+	}
+	return out
+}
+
+// skolemIndexes returns the index arguments of array reads in t that mention a skolem constant
+// (whatever their shape: the length of a merged slice is a conditional term), smallest first.
+func skolemIndexes(t *Term, sk []*Term) []*Term {
+	isSk := map[int]bool{}
+	for _, c := range sk {
+		if c.sort == SInt {
+			isSk[c.id] = true
+		}
+	}
+	if len(isSk) == 0 {
+		return nil
+	}
+	memo := map[int]bool{}
+	var mentions func(t *Term) bool
+	mentions = func(t *Term) bool {
+		if isSk[t.id] {
+			return true
+		}
+		if v, ok := memo[t.id]; ok {
+			return v
+		}
+		r := false
+		for _, a := range t.args {
+			if mentions(a) {
+				r = true
+				break
+			}
+		}
+		memo[t.id] = r
+		return r
+	}
+	var out []*Term
+	visited := map[int]bool{}
+	var walk func(t *Term)
+	walk = func(t *Term) {
+		if visited[t.id] {
+			return
+		}
+		visited[t.id] = true
+		if t.kind == 'a' && t.op == "select" && len(t.args) == 2 && t.args[1].sort == SInt && !isSk[t.args[1].id] &&
+			t.args[1].n <= 400 && !containsOp(t.args[1], "select") && mentions(t.args[1]) {
+			out = append(out, t.args[1])
+			// absolute index = relative index + offset: the relative part is what a fact about the
+			// source slice (forall j :: ... s[j] ...) has to be instantiated at
+			if ix := t.args[1]; ix.kind == 'a' && (ix.op == "+" || ix.op == "-") {
+				for _, a := range ix.args {
+					if !isSk[a.id] && a.sort == SInt && mentions(a) {
+						out = append(out, a)
+					}
+				}
+			}
+		}
+		for _, a := range t.args {
+			walk(a)
+		}
+	}
+	walk(t)
+	for i := 0; i < len(out); i++ {
+		for j := i + 1; j < len(out); j++ {
+			if out[j].n < out[i].n {
+				out[i], out[j] = out[j], out[i]
+			}
+		}
+	}
+	if len(out) > 8 {
+		out = out[:8]
 	}
 	return out
 }
@@ -368,10 +438,35 @@ func prepareQuery(pc, goal *Term, hints []*Term, refHints []*Term) (newGoal *Ter
 			}
 		}
 		parts = append(parts, insts...)
-		if len(nsk) == 0 || len(nsk) > 6 {
+		// index arithmetic exposed by the instances (a copied range reads src[sOff + (k - dOff)]): those sums
+		// are where the facts about the source have to be instantiated in the second round
+		var next []*Term
+		if round == 0 && len(sk) > 0 {
+			for _, x := range skolemSums(And(insts...), sk) {
+				if !seen[x.id] {
+					seen[x.id] = true
+					next = append(next, x)
+				}
+			}
+			for _, x := range skolemIndexes(And(insts...), sk) {
+				if !seen[x.id] {
+					seen[x.id] = true
+					next = append(next, x)
+				}
+			}
+		}
+		if len(nsk) <= 6 {
+			next = append(next, nsk...)
+		}
+		if len(next) == 0 {
 			break
 		}
-		consts = nsk
+		if debugInst {
+			for _, c := range next {
+				fmt.Fprintf(os.Stderr, "  inst round2 const %s\n", debugTerm(c, 6))
+			}
+		}
+		consts = next
 	}
 	return g, pc, And(parts...)
 }
